@@ -1,1 +1,26 @@
-From Arche Require Import Model.Base.
+(** C20 - Resources: one value per type per world, exact value, strict add/remove.
+    Statements only; proofs in Proofs/ResReg.v (on top of Proofs/StepFrame.v). *)
+From Arche Require Import Model.Base Model.Pool Model.World Model.Ops Proofs.StepFrame Proofs.ResReg.
+
+(** After every operation of the model the resource map is what the partial-map
+    specification says: only Add (of an absent id), Remove (of a present id) and Reset (of
+    an unlocked world) change it - no entity operation, query, lock, cache operation or
+    registration does. *)
+Theorem C20_resources_map : forall w o, w_res (fst (fst (step w o))) = res_spec w o.
+Proof. exact resources_map. Qed.
+
+Theorem C20_get : forall w id,
+  step w (OResGet id) = (w, match w_res w !! id with Some o => Ok (VOptZ o) | None => Panic end, []).
+Proof. exact resources_get. Qed.
+
+Theorem C20_strict : forall w id v,
+  (forall x, w_res w !! id = Some (Some x) -> step w (OResAdd id v) = (w, Panic, [])) /\
+  (w_res w !! id = Some None -> step w (OResRemove id) = (w, Panic, [])).
+Proof. exact resources_strict. Qed.
+
+Theorem C20_ids_independent : forall w key isrel zs,
+  w_resreg (fst (fst (step w (ORegister key isrel zs)))) = w_resreg w /\
+  w_reg (fst (fst (step w (OResReg key)))) = w_reg w.
+Proof. exact res_ids_independent. Qed.
+
+Print Assumptions C20_resources_map.
